@@ -5,7 +5,7 @@ import hashlib, json, os, sys, time, traceback
 from pathlib import Path
 
 ROOT = Path(__file__).resolve().parent.parent
-EVID = ROOT / "evidence"
+EVID = Path(os.environ.get("VERIF_EVIDENCE_DIR", str(ROOT / "evidence")))   # scratch runs (seeded changes) write elsewhere
 REPLAYS = EVID / "replays"
 REPO = Path(os.environ.get("VERIF_REPO", "/repo"))
 
